@@ -23,8 +23,10 @@ def sh(cmd, cwd=None, env=None, timeout=1800):
 def main():
     import signal
     signal.signal(signal.SIGTERM, lambda *a: sys.exit(143))      # let finally blocks revert /repo
-    seed = os.path.abspath(sys.argv[1])
-    checks = sys.argv[2:]
+    args = [a for a in sys.argv[1:] if a != "--wt"]
+    in_worktree = "--wt" in sys.argv[1:]     # run the checks against the patched scratch worktree (VERIF_REPO)
+    seed = os.path.abspath(args[0])          # instead of patching /repo (used while other jobs read /repo)
+    checks = args[1:]
     patch = os.path.join(seed, "patch.diff")
     demo = os.path.join(seed, "demo.py")
     res = {"seed": os.path.basename(seed)}
@@ -46,6 +48,20 @@ def main():
         rct, ot = sh("/venv/bin/python -m pytest -q -p no:cacheprovider tests", cwd=wt, env=env, timeout=900)
         res["tests_with_patch"] = ot.strip().splitlines()[-1] if ot.strip() else ""
         res["tests_pass"] = rct == 0
+        if in_worktree and checks:
+            res["checks"] = {}
+            res["checks_ran_against"] = "scratch worktree with the patch applied (VERIF_REPO), /repo untouched"
+            for c in checks:
+                try:
+                    rc, out = sh("timeout 1500 ./check %s --tier quick" % c, cwd=VERIF, timeout=1600,
+                                 env=dict(os.environ, VERIF_REPO=wt))
+                except subprocess.TimeoutExpired:
+                    rc, out = 124, ""
+                viol = [l for l in out.splitlines() if l.startswith("VIOLATION")]
+                keys = [l.strip()[:300] for l in out.splitlines() if l.strip().startswith("key=")]
+                eng = [l[:300] for l in out.splitlines() if l.startswith("ENGINE")]
+                res["checks"][c] = {"rc": rc, "violations": len(viol), "first_keys": keys[:5], "engine": eng[:3]}
+                print("  check %s on patched worktree: rc=%d violations=%d %s %s" % (c, rc, len(viol), keys[:2], eng[:1]))
     finally:
         sh("git -C /repo worktree remove --force %s" % wt)
     ok = res["demo_without_patch_rc"] == 0 and res["demo_with_patch_rc"] != 0 and res["tests_pass"]
@@ -53,6 +69,9 @@ def main():
     print("seed %s: demo without patch rc=%s, with patch rc=%s, tests: %s => %s" % (
         res["seed"], res["demo_without_patch_rc"], res["demo_with_patch_rc"], res["tests_with_patch"],
         "VALID" if ok else "INVALID"))
+    if in_worktree:
+        json.dump(res, open(os.path.join(seed, "result.json"), "w"), indent=1)
+        return
     res["checks"] = {}
     if checks:
         rc, out = sh("git -C /repo status --porcelain")
